@@ -209,3 +209,46 @@ def clientResults (s : USys) : String :=
   ";".intercalate (s.clients.map fun c => if c.dead then "crashed" else (c.prog.result?).getD "hung")
 
 end Swat4.Drv
+
+namespace Swat4.Drv
+open Swat4 Swat4.UC Std
+
+structure ModelOut where
+  s0 : USys                    -- state after the init items
+  specs : List USpec
+  final : USys
+  calls : String
+  res : String
+  dump : String
+
+/-- run the model on a use-case level case: init items, client specs (`@` = lazy start), effective events -/
+def modelRun (cfg : UCfg) (draws : Nat → Int) (initS clientS ieff : String) : Option ModelOut :=
+  let raw := clientS.splitOn ","
+  let lazyFlags := raw.map (·.startsWith "@")
+  match runInit cfg { clock := epoch } (if initS = "-" then [] else initS.splitOn ","),
+        raw.mapM (fun s => parseSpec (if s.startsWith "@" then (s.drop 1).toString else s)) with
+  | some s0, some specs =>
+    -- eager clients run up to their first storage call at start; lazy ones when first scheduled
+    let start := (specs.zip lazyFlags).foldl (fun (acc : UCRun) (x : USpec × Bool) =>
+      let i := acc.sys.clients.length
+      let c0 : UClient := { prog := x.1.prog cfg draws }
+      if x.2 then { acc with sys := { acc.sys with clients := acc.sys.clients ++ [c0] } }
+      else
+        let (a', c', names) := c0.settle acc.sys.abs acc.sys.clock
+        { sys := { acc.sys with abs := a', clients := acc.sys.clients ++ [c'] }, calls := acc.calls ++ names.map fun n => s!"{i}:{n}" }) { sys := s0, calls := [] }
+    match replay start.sys (ieff.splitOn ",") with
+    | some run =>
+      let calls := start.calls ++ run.calls
+      some { s0 := s0, specs := specs, final := run.sys,
+             calls := if calls.isEmpty then "-" else ",".intercalate calls,
+             res := clientResults run.sys, dump := ";".intercalate (dumpState run.sys.abs) }
+    | none => none
+  | _, _ => none
+
+def diffInfo (m : ModelOut) (icalls ires idump : String) : Bool × String :=
+  let same := m.calls == icalls && m.res == ires && m.dump == idump
+  (same, if same then "" else
+    (if m.calls != icalls then s!"model-calls={m.calls} " else "") ++ (if m.res != ires then s!"model-res={m.res} " else "") ++
+    (if m.dump != idump then s!"model-dump={m.dump} " else ""))
+
+end Swat4.Drv
